@@ -36,6 +36,7 @@
 #include <cassert>
 #include <iostream>
 #include <type_traits>
+#include <utility>
 
 #include <OpenVolumeMesh/Geometry/VectorT.hh>
 #include <OpenVolumeMesh/Core/TopologyKernel.hh>
@@ -134,11 +135,13 @@ public:
 
 public:
 
-    typename PointT::value_type length(HalfEdgeHandle _heh) const {
+    // The length of an edge with integer end points is not an integer in
+    // general: return what the vector's norm returns, not the scalar type.
+    auto length(HalfEdgeHandle _heh) const -> decltype(std::declval<PointT>().length()) {
         return vector(_heh).length();
     }
 
-    typename PointT::value_type length(EdgeHandle _eh) const {
+    auto length(EdgeHandle _eh) const -> decltype(std::declval<PointT>().length()) {
         return vector(_eh).length();
     }
 
